@@ -960,17 +960,20 @@ end Tls.Gen.SignSites
   model's key, hash and randomness describe (`_rawPublicKeyOp` = pow(c, e, n), `_rawPrivateKeyOp` = `f`,
   `secureHash(·, H.name)` = `H.hash`, `getRandomBytes` = `salt`).
 
-  Proved for all inputs: the cryptomath helpers, `_raw_public_key_op_bytes`, `_addPKCS1Padding` (block
-  type 1), the DigestInfo table and `addPKCS1Prefix` / `addPKCS1SHA1Prefix`, `_raw_pkcs1_verify`, `verify`
-  for padding "pkcs1" (so `pkcs1_verify_iff_canonical` holds of the source text:
-  `gen_pkcs1_verify_iff_canonical`), and `MGF1`.
-  NOT proved for all inputs (the `_partial` theorems): `EMSA_PSS_verify`, `EMSA_PSS_encode`,
-  `RSASSA_PSS_verify`, `RSASSA_PSS_sign`, `sign`, `_raw_pkcs1_sign`, `verify` for "pss", `hashAndSign`,
-  `hashAndVerify` and the block type 2 path of `_addPKCS1Padding` are translated (no poison) and tied to
-  the hand model on families of concrete inputs evaluated in the kernel (valid encodings, every kind
-  of stray bit in the first and last octets, wrong salt length, wrong lengths, boundary values);
-  the statement for every input, `Gen.EMSA_PSS_verify … = liftP (emsaPssVerify …)`, and with it
-  `gen_pss_verify_accept_iff`, is missing. -/
+  Proved for all inputs (`gen_*_eq`: the regenerated function equals `liftP` of the hand-model function):
+  the cryptomath helpers, `_raw_public_key_op_bytes`, `_raw_private_key_op_bytes` (with the hand model's
+  blinded CRT operation as `_rawPrivateKeyOp`), `_addPKCS1Padding` block type 1, the DigestInfo table,
+  `addPKCS1Prefix` / `addPKCS1SHA1Prefix`, `_raw_pkcs1_verify`, `_raw_pkcs1_sign`, `MGF1`, `EMSA_PSS_encode`,
+  `EMSA_PSS_verify`, `RSASSA_PSS_sign`, `RSASSA_PSS_verify`, `sign` and `verify` for "pkcs1" and "pss" (and
+  UnknownRSAType otherwise), `hashAndSign`, `hashAndVerify`.  Hypotheses, stated in each theorem: hash output
+  length > 0 (`HashOk.pos`), lower-case hash names (`.lower()` is applied by the source), `p, q ≠ 0` and
+  `n > 0` on the signing side.  So `pkcs1_verify_iff_canonical` and `pss_verify_accept_iff` hold of the
+  source text: `gen_pkcs1_verify_iff_canonical`, `gen_pss_verify_accept_iff`.
+  Block type 2 of `_addPKCS1Padding` (random padding; `getRandomBytes` is a function of the requested length
+  in the runtime model): `gen_addPKCS1Padding2_shape` (whatever it returns is `00 02 PS 00 bytes`, PS without
+  zero byte and of the exact length, for every loop bound and every random source) and
+  `gen_addPKCS1Padding2_returns_iff` (exactly when it returns).  The `…_vectors` theorems evaluate the
+  regenerated functions on concrete input families in the kernel (non-vacuity of the hypotheses). -/
 namespace Tls.Cm
 /-! cryptomath.py / compat.py as the source has them now (same theorems as in Props/C11.lean): the
     `PyE.numBits` / `numBytes` / `bytesToNumber` / `numberToByteArray` definitions used by the
@@ -1195,6 +1198,543 @@ theorem gen_MGF1_eq (k : PubKey) (H : HashAlg) (f : Nat → Nat) (hp : Bool) (s 
       rw [show (4 : Int) = ((4 : Nat) : Int) from rfl, numberToByteArray_nat, ok_bind', padSelf_hash]
       rfl
 
+theorem gen_EMSA_PSS_verify_eq (k : PubKey) (H : HashAlg) (f : Nat → Nat) (hp : Bool) (s mHash em : Bytes)
+    (emBits sLen : Nat) (hh : 0 < H.hLen) :
+    Gen.EMSA_PSS_verify (padSelf k H f hp s) mHash em (emBits : Int) H.name (sLen : Int) =
+      liftP ((emsaPssVerify H mHash em emBits sLen).map fun _ => true) := by
+  unfold Gen.EMSA_PSS_verify emsaPssVerify
+  simp only [bind, pure, padSelf_digestSize, ok_bind', show (8 : Int) = ((8 : Nat) : Int) from rfl,
+    Tls.Cm.gen_divceil_eq _ 8 (by decide), ← divceil_def]
+  have hb := divceil8_bounds emBits
+  generalize divceil emBits 8 = emLen at hb ⊢
+  obtain ⟨hb1, hb2⟩ := hb
+  by_cases h1 : emLen < H.hLen + sLen + 2
+  · have h1' : ((emLen : Int) < (H.hLen : Int) + (sLen : Int) + 2) := by omega
+    simp only [h1, h1', decide_true, if_true]
+    rfl
+  · have h1' : ¬ ((emLen : Int) < (H.hLen : Int) + (sLen : Int) + 2) := by omega
+    simp only [h1, h1', decide_false, Bool.false_eq_true, if_false]
+    have ea : ((emLen : Int) - (H.hLen : Int) - 1) = ((emLen - H.hLen - 1 : Nat) : Int) := by omega
+    have eb : ((emLen - H.hLen - 1 : Nat) : Int) + (H.hLen : Int) = ((emLen - H.hLen - 1 + H.hLen : Nat) : Int) := by omega
+    have ec : (((8 : Nat) : Int) - (((8 : Nat) : Int) * (emLen : Int) - (emBits : Int))) = ((8 - (8 * emLen - emBits) : Nat) : Int) := by omega
+    have ec' : (((8 : Nat) : Int) - ((emLen : Int) * ((8 : Nat) : Int) - (emBits : Int))) = ((8 - (emLen * 8 - emBits) : Nat) : Int) := by omega
+    have ed : ((emLen : Int) - (H.hLen : Int) - (sLen : Int) - 2) = ((emLen - H.hLen - sLen - 2 : Nat) : Int) := by omega
+    simp only [ea, eb, ec, ec', ed, getItemE_last, slice_0_to, slice_drop_take, lshift_one_nat, lift_some', ok_bind',
+      shiftLeft_one_sub, band_bnot_255, gen_MGF1_eq _ _ _ _ _ _ _ hh, zeros_nat, padSelf_hash]
+    generalize hmdb : List.take (emLen - H.hLen - 1) em = maskedDB
+    generalize hhh : List.take H.hLen (List.drop (emLen - H.hLen - 1) em) = h
+    cases hlast : em.getLast? with
+    | none => rfl
+    | some last =>
+      simp only [ok_bind']
+      have hu : ∀ (v : UInt8) (c : Nat), c < 256 → (decide (((v.toNat : Nat) : Int) ≠ (c : Int)) = decide (v ≠ UInt8.ofNat c)) := by
+        intro v c hc
+        apply decide_eq_decide.mpr
+        constructor
+        · intro hne heq; apply hne; rw [heq]; simp [Nat.mod_eq_of_lt hc]
+        · intro hne heq; apply hne; apply UInt8.toNat_inj.mp
+          have : v.toNat = c := by omega
+          rw [this]; simp [Nat.mod_eq_of_lt hc]
+      have h188 := hu last 188 (by decide)
+      rw [show ((188 : Nat) : Int) = 188 from rfl, show UInt8.ofNat 188 = (188 : UInt8) from rfl] at h188
+      rw [h188]
+      by_cases hl : last ≠ 188
+      · simp only [hl, decide_true, if_true, ne_eq, not_false_eq_true]; rfl
+      · simp only [hl, decide_false, Bool.false_eq_true, if_false]
+        rw [getItemE_zero]
+        cases hhead : maskedDB.head? with
+        | none => rfl
+        | some b0 =>
+          simp only [ok_bind', band_nat]
+          have htm : (decide (((b0.toNat &&& (255 - (1 <<< (8 - (8 * emLen - emBits)) - 1) % 256) : Nat) : Int) ≠ 0))
+              = decide (b0.toNat &&& pssTopMask emLen emBits ≠ 0) := by
+            apply decide_eq_decide.mpr
+            unfold pssTopMask
+            omega
+          rw [htm]
+          by_cases htop : b0.toNat &&& pssTopMask emLen emBits ≠ 0
+          · simp only [htop, decide_true, if_true, ne_eq, not_false_eq_true]; rfl
+          · simp only [htop, decide_false, Bool.false_eq_true, if_false]
+            unfold pssRecoverDB
+            cases hmgf : mgf1 H h (emLen - H.hLen - 1) with
+            | error e => rfl
+            | ok dbMask =>
+              rw [liftP_ok, ok_bind', xor_zip_eq, lift_some', ok_bind']
+              refine (bind_bind_of (setItem_head_and (xorBytes maskedDB dbMask) _) _).trans ?_
+              simp only []
+              cases hmh : maskHead (1 <<< (8 - (emLen * 8 - emBits)) - 1) (xorBytes maskedDB dbMask) with
+              | error e => rfl
+              | ok db =>
+                rw [liftP_ok, ok_bind', anyNonZero_eq]
+                by_cases hany : ((List.take (emLen - H.hLen - sLen - 2) db).any fun x => decide (x ≠ 0)) = true
+                · simp only [hany, if_true]; rfl
+                · simp only [hany, Bool.false_eq_true, if_false]
+                  rw [getItemE_nat]
+                  cases hsep : db[emLen - H.hLen - sLen - 2]? with
+                  | none => rfl
+                  | some sep =>
+                    simp only [ok_bind']
+                    have h1s := hu sep 1 (by decide)
+                    rw [show ((1 : Nat) : Int) = 1 from rfl, show UInt8.ofNat 1 = (1 : UInt8) from rfl] at h1s
+                    rw [h1s]
+                    by_cases hs1 : sep ≠ 1
+                    · simp only [hs1, decide_true, if_true, ne_eq, not_false_eq_true]; rfl
+                    · simp only [hs1, decide_false, Bool.false_eq_true, if_false]
+                      by_cases hs0 : sLen = 0
+                      · subst hs0
+                        simp only [ne_eq, not_true_eq_false, decide_false, Bool.false_eq_true, if_false, Int.natCast_zero]
+                        by_cases hc : h = H.hash (List.replicate 8 0 ++ mHash ++ [])
+                        · rw [if_pos (decide_eq_true hc), if_pos hc]; rfl
+                        · rw [if_neg (by simpa using hc), if_neg hc]; rfl
+                      · have hs0' : ((sLen : Int) ≠ 0) := by omega
+                        simp only [hs0, hs0', ne_eq, not_false_eq_true, decide_true, if_true,
+                          slice_neg_from db sLen (by omega)]
+                        by_cases hc : h = H.hash (List.replicate 8 0 ++ mHash ++ List.drop (db.length - sLen) db)
+                        · rw [if_pos (decide_eq_true hc), if_pos hc]; rfl
+                        · rw [if_neg (by simpa using hc), if_neg hc]; rfl
+
+theorem gen_EMSA_PSS_encode_eq (k : PubKey) (H : HashAlg) (f : Nat → Nat) (hp : Bool) (mHash salt : Bytes)
+    (emBits : Nat) (hh : 0 < H.hLen) :
+    Gen.EMSA_PSS_encode (padSelf k H f hp salt) mHash (emBits : Int) H.name (salt.length : Int) =
+      liftP (emsaPssEncode H mHash emBits salt) := by
+  unfold Gen.EMSA_PSS_encode emsaPssEncode
+  simp only [bind, pure, padSelf_digestSize, ok_bind', show (8 : Int) = ((8 : Nat) : Int) from rfl,
+    Tls.Cm.gen_divceil_eq _ 8 (by decide), ← divceil_def, padSelf_random, padSelf_hash, zeros_nat]
+  have hb := divceil8_bounds emBits
+  generalize divceil emBits 8 = emLen at hb ⊢
+  obtain ⟨hb1, hb2⟩ := hb
+  by_cases h1 : emLen < H.hLen + salt.length + 2
+  · have h1' : ((emLen : Int) < (H.hLen : Int) + (salt.length : Int) + 2) := by omega
+    simp only [h1, h1', decide_true, if_true]
+    rfl
+  · have h1' : ¬ ((emLen : Int) < (H.hLen : Int) + (salt.length : Int) + 2) := by omega
+    simp only [h1, h1', decide_false, Bool.false_eq_true, if_false]
+    have e1 : ((emLen : Int) - (salt.length : Int) - (H.hLen : Int) - 2) = ((emLen - salt.length - H.hLen - 2 : Nat) : Int) := by omega
+    have e2 : ((emLen : Int) - (H.hLen : Int) - 1) = ((emLen - H.hLen - 1 : Nat) : Int) := by omega
+    have e3 : (((8 : Nat) : Int) - ((emLen : Int) * ((8 : Nat) : Int) - (emBits : Int))) = ((8 - (emLen * 8 - emBits) : Nat) : Int) := by omega
+    simp only [e1, e2, e3, zeros_nat, ok_bind', gen_MGF1_eq _ _ _ _ _ _ _ hh, lshift_one_nat, lift_some', shiftLeft_one_sub]
+    cases hmgf : mgf1 H (H.hash (List.replicate 8 0 ++ mHash ++ salt)) (emLen - H.hLen - 1) with
+    | error e => rfl
+    | ok dbMask =>
+      rw [liftP_ok, ok_bind', xor_zip_eq, lift_some', ok_bind']
+      refine (bind_bind_of (setItem_head_and _ _) _).trans ?_
+      simp only []
+      cases hmh : maskHead (1 <<< (8 - (emLen * 8 - emBits)) - 1)
+          (xorBytes (List.replicate (emLen - salt.length - H.hLen - 2) 0 ++ [1] ++ salt) dbMask) with
+      | error e => rfl
+      | ok m => rfl
+
+theorem rawPublic_err (k : PubKey) (c : Bytes) (e : Err) (h : rawPublicKeyOpBytes k c = .error e) : e = .valueError := by
+  unfold rawPublicKeyOpBytes at h
+  by_cases h1 : c.length ≠ numBytes k.n
+  · simp [h1] at h; exact h.symm
+  · by_cases h2 : beDecode c ≥ k.n
+    · simp [h1, h2] at h; exact h.symm
+    · simp [h1, h2] at h
+
+theorem rawPublic_ok_pos (k : PubKey) (c em : Bytes) (h : rawPublicKeyOpBytes k c = .ok em) : 0 < k.n := by
+  unfold rawPublicKeyOpBytes at h
+  by_cases h1 : c.length ≠ numBytes k.n
+  · simp [h1] at h
+  · by_cases h2 : beDecode c ≥ k.n
+    · simp [h1, h2] at h
+    · omega
+
+theorem gen_RSASSA_PSS_verify_eq (k : PubKey) (H : HashAlg) (f : Nat → Nat) (hp : Bool) (s mHash sig : Bytes)
+    (sLen : Nat) (hh : 0 < H.hLen) :
+    Gen.RSASSA_PSS_verify (padSelf k H f hp s) mHash sig H.name (sLen : Int) =
+      liftP ((rsassaPssVerify H k mHash sig sLen).map fun _ => true) := by
+  unfold Gen.RSASSA_PSS_verify rsassaPssVerify
+  simp only [bind, pure, gen_raw_public_eq]
+  cases hraw : rawPublicKeyOpBytes k sig with
+  | error e =>
+    have := rawPublic_err k sig e hraw
+    subst this
+    rfl
+  | ok em =>
+    have hn := rawPublic_ok_pos k sig em hraw
+    have hat : PyE.attempt (liftP (Except.ok em : Except Err Bytes)) PyE.Err.valueError = .ok (some em) := rfl
+    rw [hat, ok_bind']
+    have hnone : ((some em).isNone = true) = False := by simp
+    have hgs : PyE.getSome (some em) = (.ok em : PyE.M Bytes) := rfl
+    simp only [hnone, if_false, hgs, ok_bind', padSelf_n, pyNumBits]
+    have hnb : 1 ≤ numBits k.n := by
+      unfold numBits; split <;> omega
+    have eb : ((numBits k.n : Nat) : Int) - 1 = ((numBits k.n - 1 : Nat) : Int) := by omega
+    simp only [eb, show (8 : Int) = ((8 : Nat) : Int) from rfl, Tls.Cm.gen_divceil_eq _ 8 (by decide), ← divceil_def,
+      ok_bind', len_eq, gen_EMSA_PSS_verify_eq _ _ _ _ _ _ _ _ _ hh]
+    generalize divceil (numBits k.n - 1) 8 = emLen
+    have hfin : ∀ r : Except Err Unit,
+        Except.bind (liftP (Except.map (fun _ => true) r))
+          (fun b => if b = true then (Except.pure true : PyE.M Bool) else PyE.raise PyE.Err.invalidSignature)
+          = liftP (Except.map (fun _ => true) r) := by
+      intro r; cases r <;> rfl
+    by_cases hlen : em.length > emLen
+    · have hlen' : ((em.length : Int) > (emLen : Int)) := by omega
+      have e1 : ((em.length : Int) - (emLen : Int)) = ((em.length - emLen : Nat) : Int) := by omega
+      simp only [hlen, hlen', decide_true, if_true, e1, slice_to, slice_from, anyNonZero_eq, hfin]
+      by_cases hany : ((List.take (em.length - emLen) em).any fun x => decide (x ≠ 0)) = true
+      · simp only [hany, if_true]; rfl
+      · simp only [hany, Bool.false_eq_true, if_false]
+    · have hlen' : ¬ ((em.length : Int) > (emLen : Int)) := by omega
+      simp only [hlen, hlen', decide_false, Bool.false_eq_true, if_false, hfin]
+
+/-- **Block type 2 padding has the PKCS#1 v1.5 shape, for every outcome.**  Whatever loop bound `fuel` and
+    whatever `getRandomBytes` returns: IF `_addPKCS1Padding(bytes, 2)` as the source has it now returns, the
+    result is `00 02 PS 00 bytes` with no zero byte in PS and `|PS| = max(0, k - len(bytes) - 3)`. -/
+theorem gen_addPKCS1Padding2_shape (self : PyE.RsaSelf) (bytes out : Bytes) (fuel : Nat)
+    (h : Gen._addPKCS1Padding fuel self bytes 2 = .ok out) :
+    ∃ ps : Bytes, out = [0, 2] ++ ps ++ [0] ++ bytes ∧ (∀ b ∈ ps, b ≠ 0) ∧
+      ps.length = (PyE.numBytes self.n - ((bytes.length : Int) + 3)).toNat := by
+  unfold Gen._addPKCS1Padding at h
+  have h21 : (decide ((2 : Int) = 1) = true) = False := by simp
+  have h22 : (decide ((2 : Int) = 2) = true) = True := by simp
+  simp only [bind, pure, h21, h22, if_false, if_true, len_eq, show (0 : Int) = ((0 : Nat) : Int) from rfl, zeros_nat,
+    ok_bind'] at h
+  generalize hpl : PyE.numBytes self.n - ((bytes.length : Int) + 3) = padLength at h ⊢
+  have hdt : (decide True = true) = True := by simp
+  simp only [hdt, if_true] at h
+  cases hw : PyE.whileLoop (fun pad => decide (PyE.lenL pad < padLength))
+      (fun pad => Except.pure (PyE.listTake (PyE.filterNonZero (self.random (padLength * 2))) padLength))
+      fuel (PyE.iterBytes (List.replicate 0 0)) with
+  | error e => rw [hw] at h; cases h
+  | ok pad =>
+    rw [hw, ok_bind'] at h
+    -- invariant: non-zero byte values, never more than padLength of them
+    have hinv := whileLoop_inv _ _ (fun (p : List Int) => (∀ v ∈ p, 1 ≤ v ∧ v < 256) ∧ (p.length : Int) ≤ max 0 padLength)
+      (by
+        intro s s' _ hc hb
+        have hlt : (PyE.lenL s < padLength) := by simpa using hc
+        have hpos : 0 < padLength := by unfold PyE.lenL at hlt; omega
+        cases hb
+        unfold PyE.listTake
+        have hn : ¬ (padLength < 0) := by omega
+        simp only [hn, if_false]
+        refine ⟨fun v hv => filterNonZero_range _ v (List.mem_of_mem_take hv), ?_⟩
+        have := List.length_take_le padLength.toNat (PyE.filterNonZero (self.random (padLength * 2)))
+        omega)
+      fuel _ pad (by
+        have e0 : PyE.iterBytes (List.replicate 0 0) = [] := rfl
+        rw [e0]
+        exact ⟨fun v hv => by simp at hv, by simp⟩) hw
+    obtain ⟨⟨hrange, hle⟩, hexit⟩ := hinv
+    have hge : ¬ ((pad.length : Int) < padLength) := by
+      have : ¬ (PyE.lenL pad < padLength) := by simpa using hexit
+      exact this
+    rw [show ((0 : Nat) : Int) = 0 from rfl, pad2_bytes pad hrange, lift_some', ok_bind'] at h
+    cases h
+    refine ⟨pad.map (fun v => UInt8.ofNat v.toNat), by simp [List.append_assoc], ?_, ?_⟩
+    · intro b hb
+      rw [List.mem_map] at hb
+      obtain ⟨v, hv, rfl⟩ := hb
+      have := hrange v hv
+      intro h0
+      have h1 : (UInt8.ofNat v.toNat).toNat = 0 := by rw [h0]; rfl
+      rw [UInt8.toNat_ofNat'] at h1
+      omega
+    · rw [List.length_map]; omega
+
+/-- **When it returns.**  With `getRandomBytes` modelled as a function of the requested length (the same draw
+    in every iteration), `_addPKCS1Padding(bytes, 2)` returns iff no padding is needed or the loop bound
+    admits one iteration and the draw of `2·padLength` bytes contains at least `padLength` non-zero ones;
+    otherwise the `while` loop never ends (`Err.fuel` for every bound). -/
+theorem gen_addPKCS1Padding2_returns_iff (self : PyE.RsaSelf) (bytes : Bytes) (fuel : Nat) (padLength : Int)
+    (hpl : PyE.numBytes self.n - ((bytes.length : Int) + 3) = padLength) :
+    (∃ out, Gen._addPKCS1Padding fuel self bytes 2 = .ok out) ↔
+      (padLength ≤ 0 ∨ (1 ≤ fuel ∧ padLength ≤ ((PyE.filterNonZero (self.random (padLength * 2))).length : Int))) := by
+  unfold Gen._addPKCS1Padding
+  have h21 : (decide ((2 : Int) = 1) = true) = False := by simp
+  have h22 : (decide ((2 : Int) = 2) = true) = True := by simp
+  have hdt : (decide True = true) = True := by simp
+  simp only [bind, pure, h21, h22, if_false, if_true, len_eq, show (0 : Int) = ((0 : Nat) : Int) from rfl, zeros_nat,
+    ok_bind', hdt, hpl]
+  have e0 : PyE.iterBytes (List.replicate 0 0) = [] := rfl
+  rw [e0]
+  generalize hdraw : PyE.filterNonZero (self.random (padLength * 2)) = draw
+  have hdr : ∀ v ∈ draw, 1 ≤ v ∧ v < 256 := by rw [← hdraw]; exact filterNonZero_range _
+  -- what the loop returns decides everything: a returned pad always converts
+  have hconv : ∀ pad : List Int, (∀ v ∈ pad, 1 ≤ v ∧ v < 256) →
+      ∃ out, Except.bind (liftM (Py.bytearrayOfInts ([((0 : Nat) : Int), 2] ++ pad ++ [((0 : Nat) : Int)])) : PyE.M Bytes)
+        (fun b => (Except.pure (b ++ bytes) : PyE.M Bytes)) = Except.ok out := by
+    intro pad hp
+    rw [show ((0 : Nat) : Int) = 0 from rfl, pad2_bytes pad hp, lift_some', ok_bind']
+    exact ⟨_, rfl⟩
+  by_cases hp0 : padLength ≤ 0
+  · -- no iteration
+    have hc0 : (decide (PyE.lenL ([] : List Int) < padLength)) = false := by
+      unfold PyE.lenL; simp; omega
+    have hw : PyE.whileLoop (fun pad => decide (PyE.lenL pad < padLength))
+        (fun pad => Except.pure (PyE.listTake draw padLength)) fuel [] = .ok [] := by
+      cases fuel <;> (unfold PyE.whileLoop; simp only [hc0, Bool.false_eq_true, if_false])
+    rw [hw, ok_bind']
+    exact ⟨fun _ => Or.inl hp0, fun _ => hconv [] (fun v hv => by simp at hv)⟩
+  · have hpos : 0 < padLength := by omega
+    have hc0 : (decide (PyE.lenL ([] : List Int) < padLength)) = true := by
+      unfold PyE.lenL; simp; omega
+    have hn : ¬ (padLength < 0) := by omega
+    have hs1 : PyE.listTake draw padLength = draw.take padLength.toNat := by
+      unfold PyE.listTake; simp only [hn, if_false]
+    by_cases hen : padLength ≤ (draw.length : Int)
+    · -- one iteration is enough
+      have hc1 : (decide (PyE.lenL (draw.take padLength.toNat) < padLength)) = false := by
+        unfold PyE.lenL
+        have : (draw.take padLength.toNat).length = padLength.toNat := by
+          rw [List.length_take]; omega
+        simp [this]
+      cases fuel with
+      | zero =>
+        have hw : PyE.whileLoop (fun pad => decide (PyE.lenL pad < padLength))
+            (fun pad => Except.pure (PyE.listTake draw padLength)) 0 [] = .error .fuel := by
+          unfold PyE.whileLoop; simp only [hc0, if_true]
+        rw [hw]
+        constructor
+        · rintro ⟨out, h⟩; cases h
+        · rintro (h | ⟨h, _⟩) <;> omega
+      | succ f =>
+        have hw := whileLoop_once (fun pad => decide (PyE.lenL pad < padLength))
+          (fun pad => (Except.pure (PyE.listTake draw padLength) : PyE.M (List Int))) f [] (draw.take padLength.toNat)
+          hc0 (by rw [hs1]; rfl) hc1
+        rw [hw, ok_bind']
+        exact ⟨fun _ => Or.inr ⟨by omega, hen⟩,
+          fun _ => hconv _ (fun v hv => hdr v (List.mem_of_mem_take hv))⟩
+    · -- the draw is too short: every iteration reproduces the same too short pad
+      have hc1 : (decide (PyE.lenL (draw.take padLength.toNat) < padLength)) = true := by
+        unfold PyE.lenL
+        have := List.length_take_le padLength.toNat draw
+        simp; omega
+      have hstuck := whileLoop_stuck (fun pad => decide (PyE.lenL pad < padLength))
+        (fun pad => (Except.pure (PyE.listTake draw padLength) : PyE.M (List Int))) (draw.take padLength.toNat)
+        hc1 (by rw [hs1]; rfl)
+      have hw : PyE.whileLoop (fun pad => decide (PyE.lenL pad < padLength))
+          (fun pad => Except.pure (PyE.listTake draw padLength)) fuel [] = .error .fuel := by
+        cases fuel with
+        | zero => unfold PyE.whileLoop; simp only [hc0, if_true]
+        | succ f =>
+          unfold PyE.whileLoop
+          simp only [hc0, if_true]
+          show PyE.whileLoop _ _ f (PyE.listTake draw padLength) = _
+          have := hstuck f
+          rw [← hs1] at this
+          exact this
+      rw [hw]
+      constructor
+      · rintro ⟨out, h⟩; cases h
+      · rintro (h | ⟨_, h⟩) <;> omega
+
+theorem gen_raw_private_eq (k : PrivKey) (H : HashAlg) (st : Blind) (rnd : Nat) (hp : Bool) (s msg : Bytes)
+    (hpq : k.p ≠ 0 ∧ k.q ≠ 0) :
+    Gen._raw_private_key_op_bytes (padSelf k.pub H (privOf k st rnd) hp s) msg =
+      liftP ((rawPrivateKeyOpBytes k st rnd msg).map Prod.fst) := by
+  unfold Gen._raw_private_key_op_bytes rawPrivateKeyOpBytes
+  simp only [bind, pure, padSelf_n, pyNumBytes, len_eq, bytesToNumber_eq, padSelf_priv, numberToByteArray_nat]
+  have hpq' : ¬ (k.p = 0 ∨ k.q = 0) := by omega
+  by_cases h1 : msg.length = numBytes k.pub.n
+  · have h1' : ((msg.length : Int) = (numBytes k.pub.n : Int)) := by omega
+    by_cases h2 : beDecode msg ≥ k.pub.n
+    · have h2' : ((beDecode msg : Int) ≥ (k.pub.n : Int)) := by omega
+      simp only [h1, h1', h2, h2', ne_eq, not_true_eq_false, decide_false, decide_true, Bool.false_eq_true, if_false, if_true]
+      rfl
+    · have h2' : ¬ ((beDecode msg : Int) ≥ (k.pub.n : Int)) := by omega
+      simp only [h1, h1', h2, h2', hpq', ne_eq, not_true_eq_false, decide_false, Bool.false_eq_true, if_false]
+      rfl
+  · have h1' : ¬ ((msg.length : Int) = (numBytes k.pub.n : Int)) := by omega
+    simp only [h1, h1', ne_eq, not_false_eq_true, decide_true, if_true]
+    rfl
+
+theorem gen_raw_pkcs1_sign_eq (k : PrivKey) (H : HashAlg) (st : Blind) (rnd : Nat) (s bytes : Bytes) (fuel : Nat)
+    (hpq : k.p ≠ 0 ∧ k.q ≠ 0) :
+    Gen._raw_pkcs1_sign fuel (padSelf k.pub H (privOf k st rnd) (decide (k.d ≠ 0)) s) bytes =
+      liftP ((rawPkcs1Sign k st rnd bytes).map Prod.fst) := by
+  unfold Gen._raw_pkcs1_sign rawPkcs1Sign
+  simp only [bind, pure, padSelf_hasPriv, gen_addPKCS1Padding1_eq, ok_bind', gen_raw_private_eq _ _ _ _ _ _ _ hpq]
+  by_cases hd : k.d = 0
+  · simp only [hd, ne_eq, not_true_eq_false, decide_false, Bool.not_false, if_true]; rfl
+  · simp only [hd, ne_eq, not_false_eq_true, decide_true, Bool.not_true, Bool.false_eq_true, if_false]
+
+theorem rawPrivate_err (k : PrivKey) (st : Blind) (rnd : Nat) (m : Bytes) (e : Err) (hpq : k.p ≠ 0 ∧ k.q ≠ 0)
+    (h : rawPrivateKeyOpBytes k st rnd m = .error e) : e = .valueError := by
+  unfold rawPrivateKeyOpBytes at h
+  have hpq' : ¬ (k.p = 0 ∨ k.q = 0) := by omega
+  by_cases h1 : m.length ≠ numBytes k.pub.n
+  · simp [h1] at h; exact h.symm
+  · by_cases h2 : beDecode m ≥ k.pub.n
+    · simp [h1, h2] at h; exact h.symm
+    · simp [h1, h2, hpq'] at h
+
+theorem gen_RSASSA_PSS_sign_eq (k : PrivKey) (H : HashAlg) (st : Blind) (rnd : Nat) (hp : Bool) (mHash salt : Bytes)
+    (hh : 0 < H.hLen) (hpq : k.p ≠ 0 ∧ k.q ≠ 0) (hn : 0 < k.pub.n) :
+    Gen.RSASSA_PSS_sign (padSelf k.pub H (privOf k st rnd) hp salt) mHash H.name (salt.length : Int) =
+      liftP ((rsassaPssSign H k st rnd mHash salt).map Prod.fst) := by
+  unfold Gen.RSASSA_PSS_sign rsassaPssSign
+  have hnb : 1 ≤ numBits k.pub.n := by
+    unfold numBits; split <;> omega
+  have eb : ((numBits k.pub.n : Nat) : Int) - 1 = ((numBits k.pub.n - 1 : Nat) : Int) := by omega
+  simp only [bind, pure, padSelf_n, pyNumBits, pyNumBytes, eb, gen_EMSA_PSS_encode_eq _ _ _ _ _ _ _ hh]
+  cases henc : emsaPssEncode H mHash (numBits k.pub.n - 1) salt with
+  | error e => rfl
+  | ok em =>
+    rw [liftP_ok, ok_bind', len_eq, max2_zero]
+    have e1 : (((numBytes k.pub.n : Nat) : Int) - (em.length : Int)).toNat = numBytes k.pub.n - em.length := by omega
+    rw [e1, zeros_nat, ok_bind', gen_raw_private_eq _ _ _ _ _ _ _ hpq]
+    conv_rhs => simp only [bind, Except.bind]
+    cases hraw : rawPrivateKeyOpBytes k st rnd (List.replicate (numBytes k.pub.n - em.length) 0 ++ em) with
+    | error e =>
+      have := rawPrivate_err k st rnd _ e hpq hraw
+      subst this
+      rfl
+    | ok r => rfl
+
+theorem gen_sign_pkcs1_eq (k : PrivKey) (H : HashAlg) (st : Blind) (rnd : Nat) (s salt bytes : Bytes) (p : String)
+    (alg : Option String) (sl : Option Int) (fuel : Nat)
+    (hp : p.toLower = "pkcs1") (hpq : k.p ≠ 0 ∧ k.q ≠ 0) (hlow : ∀ a, alg = some a → a.toLower = a) :
+    Gen.sign fuel (padSelf k.pub H (privOf k st rnd) (decide (k.d ≠ 0)) s) bytes p alg sl =
+      liftP ((sign k st rnd bytes .pkcs1 alg H salt).map Prod.fst) := by
+  unfold Gen.sign sign
+  have hl : PyE.lower p = "pkcs1" := hp
+  have hd : (decide ("pkcs1" = "pkcs1") = true) = True := by simp
+  simp only [bind, pure, hl, hd, if_true, gen_addPKCS1Prefix_eq, gen_raw_pkcs1_sign_eq _ _ _ _ _ _ _ hpq, bind_pure']
+  cases alg with
+  | none => rfl
+  | some a =>
+    have ha := hlow a rfl
+    simp only [Option.isSome_some, if_true, PyE.optGet, ok_bind', ha, bind_pure']
+    cases hpre : addPKCS1Prefix bytes a with
+    | error e => rfl
+    | ok b => rfl
+
+theorem gen_sign_pss_eq (k : PrivKey) (H : HashAlg) (st : Blind) (rnd : Nat) (hp : Bool) (mHash salt : Bytes) (p : String)
+    (fuel : Nat) (hpp : p.toLower = "pss")
+    (hh : 0 < H.hLen) (hpq : k.p ≠ 0 ∧ k.q ≠ 0) (hn : 0 < k.pub.n) :
+    Gen.sign fuel (padSelf k.pub H (privOf k st rnd) hp salt) mHash p (some H.name) (some (salt.length : Int)) =
+      liftP ((sign k st rnd mHash .pss (some H.name) H salt).map Prod.fst) := by
+  unfold Gen.sign sign
+  have hl : PyE.lower p = "pss" := hpp
+  have hd1 : (decide ("pss" = "pkcs1") = true) = False := by decide
+  have hd2 : (decide ("pss" = "pss") = true) = True := by simp
+  simp only [bind, pure, hl, hd1, hd2, if_false, if_true, PyE.optGet, ok_bind', bind_pure',
+    gen_RSASSA_PSS_sign_eq _ _ _ _ _ _ _ hh hpq hn, decide_true]
+
+theorem gen_sign_other (self : PyE.RsaSelf) (bytes : Bytes) (p : String) (alg : Option String) (sl : Option Int) (fuel : Nat)
+    (h1 : p.toLower ≠ "pkcs1") (h2 : p.toLower ≠ "pss") :
+    Gen.sign fuel self bytes p alg sl = .error .unknownRSAType := by
+  unfold Gen.sign
+  simp only [bind, pure, PyE.lower, h1, h2, decide_false, Bool.false_eq_true, if_false]
+  rfl
+
+theorem gen_verify_pss_eq (k : PubKey) (H : HashAlg) (f : Nat → Nat) (hp : Bool) (s sig mHash : Bytes) (sLen fuel : Nat)
+    (hh : 0 < H.hLen) :
+    Gen.verify fuel (padSelf k H f hp s) sig mHash "pss" (some H.name) (some (sLen : Int)) =
+      liftP (verify k sig mHash .pss (some H.name) H sLen) := by
+  unfold Gen.verify verify
+  have hd1 : (decide ("pss" = "pkcs1")) = false := by decide
+  have hd2 : (decide ("pss" = "pss")) = true := by decide
+  simp only [bind, pure, hd1, hd2, Bool.false_and, Bool.false_eq_true, if_false, if_true, PyE.optGet, ok_bind',
+    gen_RSASSA_PSS_verify_eq _ _ _ _ _ _ _ _ hh, bind_pure']
+  have hp1 : ¬ (Padding.pss = Padding.pkcs1) := by decide
+  simp only [hp1, false_and, if_false, if_true]
+  cases hv : rsassaPssVerify H k mHash sig sLen with
+  | ok u => rfl
+  | error e => cases e <;> rfl
+
+theorem lower_pkcs1 : "pkcs1".toLower = "pkcs1" := by decide +kernel
+theorem lower_pss : "pss".toLower = "pss" := by decide +kernel
+
+theorem gen_hashAndVerify_pkcs1_eq (k : PubKey) (H : HashAlg) (f : Nat → Nat) (hp : Bool) (s sig data : Bytes)
+    (scheme : String) (sl : Int) (sLen fuel : Nat) (hs : scheme.toLower = "pkcs1") (hlow : H.name.toLower = H.name) :
+    Gen.hashAndVerify fuel (padSelf k H f hp s) sig data scheme H.name sl =
+      liftP (hashAndVerify k sig data .pkcs1 H sLen) := by
+  unfold Gen.hashAndVerify hashAndVerify
+  have h1 : PyE.lower scheme = "pkcs1" := hs
+  have h2 : PyE.lower H.name = H.name := hlow
+  simp only [bind, pure, h1, h2, padSelf_hash, bind_pure']
+  exact gen_verify_pkcs1_eq k H f hp s sig (H.hash data) (some H.name) (some sl) sLen fuel
+    (fun a ha => by cases ha; exact hlow)
+
+theorem gen_hashAndVerify_pss_eq (k : PubKey) (H : HashAlg) (f : Nat → Nat) (hp : Bool) (s sig data : Bytes)
+    (scheme : String) (sLen fuel : Nat) (hs : scheme.toLower = "pss") (hlow : H.name.toLower = H.name)
+    (hh : 0 < H.hLen) :
+    Gen.hashAndVerify fuel (padSelf k H f hp s) sig data scheme H.name (sLen : Int) =
+      liftP (hashAndVerify k sig data .pss H sLen) := by
+  unfold Gen.hashAndVerify hashAndVerify
+  have h1 : PyE.lower scheme = "pss" := hs
+  have h2 : PyE.lower H.name = H.name := hlow
+  simp only [bind, pure, h1, h2, padSelf_hash, bind_pure']
+  exact gen_verify_pss_eq k H f hp s sig (H.hash data) sLen fuel hh
+
+theorem gen_hashAndSign_pkcs1_eq (k : PrivKey) (H : HashAlg) (st : Blind) (rnd : Nat) (s salt data : Bytes)
+    (scheme : String) (sl : Int) (fuel : Nat) (hs : scheme.toLower = "pkcs1") (hlow : H.name.toLower = H.name)
+    (hpq : k.p ≠ 0 ∧ k.q ≠ 0) :
+    Gen.hashAndSign fuel (padSelf k.pub H (privOf k st rnd) (decide (k.d ≠ 0)) s) data scheme H.name sl =
+      liftP ((hashAndSign k st rnd data .pkcs1 H salt).map Prod.fst) := by
+  unfold Gen.hashAndSign hashAndSign
+  have h1 : PyE.lower scheme = "pkcs1" := hs
+  have h2 : PyE.lower H.name = H.name := hlow
+  simp only [bind, pure, h1, h2, padSelf_hash, bind_pure']
+  exact gen_sign_pkcs1_eq k H st rnd s salt (H.hash data) "pkcs1" (some H.name) (some sl) fuel lower_pkcs1 hpq
+    (fun a ha => by cases ha; exact hlow)
+
+theorem gen_hashAndSign_pss_eq (k : PrivKey) (H : HashAlg) (st : Blind) (rnd : Nat) (hp : Bool) (salt data : Bytes)
+    (scheme : String) (fuel : Nat) (hs : scheme.toLower = "pss") (hlow : H.name.toLower = H.name)
+    (hh : 0 < H.hLen) (hpq : k.p ≠ 0 ∧ k.q ≠ 0) (hn : 0 < k.pub.n) :
+    Gen.hashAndSign fuel (padSelf k.pub H (privOf k st rnd) hp salt) data scheme H.name (salt.length : Int) =
+      liftP ((hashAndSign k st rnd data .pss H salt).map Prod.fst) := by
+  unfold Gen.hashAndSign hashAndSign
+  have h1 : PyE.lower scheme = "pss" := hs
+  have h2 : PyE.lower H.name = H.name := hlow
+  simp only [bind, pure, h1, h2, padSelf_hash, bind_pure']
+  exact gen_sign_pss_eq k H st rnd hp (H.hash data) salt "pss" fuel lower_pss hh hpq hn
+
+/-- **pss_verify_accept_iff, of the source as it is now.** -/
+theorem gen_pss_verify_accept_iff (k : PubKey) (H : HashAlg) (f : Nat → Nat) (hp : Bool) (s mHash em : Bytes)
+    (emBits sLen : Nat) (hh : 0 < H.hLen) :
+    Gen.EMSA_PSS_verify (padSelf k H f hp s) mHash em (emBits : Int) H.name (sLen : Int) = .ok true ↔
+      let emLen := divceil emBits 8
+      let maskedDB := em.take (emLen - H.hLen - 1)
+      let h := (em.drop (emLen - H.hLen - 1)).take H.hLen
+      H.hLen + sLen + 2 ≤ emLen ∧
+      em.getLast? = some 0xbc ∧
+      (∃ b0, maskedDB.head? = some b0 ∧ b0.toNat &&& pssTopMask emLen emBits = 0) ∧
+      ∃ db, pssRecoverDB H maskedDB h emLen emBits = .ok db ∧
+        (∀ x ∈ db.take (emLen - H.hLen - sLen - 2), x = 0) ∧
+        db[emLen - H.hLen - sLen - 2]? = some 1 ∧
+        h = H.hash (List.replicate 8 (0 : UInt8) ++ mHash ++
+              (if sLen ≠ 0 then db.drop (db.length - sLen) else [])) := by
+  rw [gen_EMSA_PSS_verify_eq k H f hp s mHash em emBits sLen hh, ← emsaPssVerify_ok_iff H mHash em emBits sLen]
+  cases emsaPssVerify H mHash em emBits sLen with
+  | error e => simp [liftP, Except.map]
+  | ok u => simp [liftP, Except.map]
+
+/-- **What the source's `sign` emits, the source's `verify` accepts** (RSASSA-PSS, any hash with fixed non-zero
+    output length, any salt, any well-formed key — also modulus bit lengths = 1 mod 8), stated about the
+    regenerated functions on both sides. -/
+theorem gen_pss_sign_then_verify {H : HashAlg} (hH : HashOk H) {k : PrivKey} (vk : ValidKey k)
+    {st : Blind} {rnd : Nat} (hst : BlindOk k st)
+    (hrnd : st.blinder = 0 → invMod rnd k.pub.n * rnd % k.pub.n = 1)
+    (mHash salt sig s' : Bytes) (hp hp' : Bool) (f' : Nat → Nat) (fuel fuel' : Nat)
+    (hs : Gen.sign fuel (padSelf k.pub H (privOf k st rnd) hp salt) mHash "pss" (some H.name) (some (salt.length : Int))
+      = .ok sig) :
+    Gen.verify fuel' (padSelf k.pub H f' hp' s') sig mHash "pss" (some H.name) (some (salt.length : Int)) = .ok true := by
+  have hp0 : k.p ≠ 0 := by have := vk.hp2; omega
+  have hq0 : k.q ≠ 0 := by have := vk.hq2; omega
+  have hn : 0 < k.pub.n := by rw [vk.hn]; exact Nat.mul_pos (by omega) (by omega)
+  rw [gen_sign_pss_eq k H st rnd hp mHash salt "pss" fuel lower_pss hH.pos ⟨hp0, hq0⟩ hn] at hs
+  have hsig : ∃ st', rsassaPssSign H k st rnd mHash salt = .ok (sig, st') := by
+    unfold sign at hs
+    cases hr : rsassaPssSign H k st rnd mHash salt with
+    | error e => rw [hr] at hs; cases hs
+    | ok r =>
+      rw [hr] at hs
+      obtain ⟨a, b⟩ := r
+      have : a = sig := by cases hs; rfl
+      exact ⟨b, by rw [this]⟩
+  obtain ⟨st', hst'⟩ := hsig
+  have hv := (rsassaPss_sign_verify hH vk hst hrnd mHash salt sig st' hst').1
+  rw [gen_verify_pss_eq k.pub H f' hp' s' sig mHash salt.length fuel' hH.pos]
+  unfold verify
+  have hp1 : ¬ (Padding.pss = Padding.pkcs1) := by decide
+  simp only [hp1, false_and, if_false, if_true, hv]
+  rfl
+
 /-- **pkcs1_verify_iff_canonical, of the source as it is now.**  `verify(sig, h, "pkcs1", alg)` of the
     regenerated rsakey.py returns True iff the key is not PSS-only, `sig` has the length of the modulus,
     is below it, and `sig^e mod n` on exactly k bytes is THE canonical encoding (lower-case hash name,
@@ -1234,14 +1774,14 @@ def pssVerifyVectors : List (Bytes × Nat × Nat) :=
       (em, emBits, salt.length + 1), (em.drop 1, emBits, salt.length), (0 :: em, emBits, salt.length), ([], emBits, 0),
       (em, emBits + 8, salt.length), (em, emBits - 1, salt.length) ]
 
-theorem gen_pss_verify_vectors_partial :
+theorem gen_pss_verify_vectors :
     pssVerifyVectors.all (fun v =>
       Gen.EMSA_PSS_verify (padSelf exKey.pub toyHash (fun _ => 0) false []) [1, 2] v.1 (v.2.1 : Int) "toy" (v.2.2 : Int)
         == asBool (emsaPssVerify toyHash [1, 2] v.1 v.2.1 v.2.2)) = true := by
   decide +kernel
 
 
-theorem gen_pss_encode_vectors_partial :
+theorem gen_pss_encode_vectors :
     ([((47 : Nat), ([9] : Bytes)), (48, [9]), (41, [9]), (47, []), (64, [7, 8, 9]), (33, []), (24, [1]), (31, []), (32, []), (0, [])].all
       fun es => Gen.EMSA_PSS_encode (padSelf exKey.pub toyHash (fun _ => 0) false es.2) [1, 2] (es.1 : Int) "toy" (es.2.length : Int)
         == liftP (emsaPssEncode toyHash [1, 2] es.1 es.2)) = true := by
@@ -1258,7 +1798,7 @@ def pssKeyVectors : List (Bytes × Nat) :=
       (sig.drop 1, salt.length), (0 :: sig, salt.length), (beEncode 5 136117223861, salt.length), (beEncode 5 0, salt.length),
       (beEncode 5 1, salt.length), (beEncode 5 136117223860, salt.length) ]
 
-theorem gen_rsassa_pss_verify_vectors_partial :
+theorem gen_rsassa_pss_verify_vectors :
     (pssKeyVectors.all fun v =>
       Gen.RSASSA_PSS_verify (padSelf exKey.pub toyHash (fun _ => 0) false []) [1, 2] v.1 "toy" (v.2 : Int)
         == asBool (rsassaPssVerify toyHash exKey.pub [1, 2] v.1 v.2)) = true ∧
@@ -1270,7 +1810,7 @@ theorem gen_rsassa_pss_verify_vectors_partial :
 /-- signing: the source's `sign` / `RSASSA_PSS_sign` / `_raw_pkcs1_sign` with the hand model's blinded CRT
     operation as `_rawPrivateKeyOp` give the hand model's signatures -/
 def exPriv (m : Nat) : Nat := (rawPrivateKeyOp exKey ⟨0, 0⟩ 12345 m).1
-theorem gen_sign_vectors_partial :
+theorem gen_sign_vectors :
     ([([9] : Bytes), []].all fun salt =>
       Gen.sign 8 (padSelf exKey.pub toyHash exPriv true salt) [1, 2] "pss" (some "toy") (some (salt.length : Int))
         == liftP ((sign exKey ⟨0, 0⟩ 12345 [1, 2] .pss (some "toy") toyHash salt).map Prod.fst)) = true ∧
